@@ -251,8 +251,17 @@ fn strategy() -> BoxedStrategy<Case> {
 }
 
 fn fixed() -> Vec<Case> {
-    let partials = vec![("p".to_string(), "(p{{ k }}{% cycle 'x', 'y' %}{% increment n %})".to_string()), ("q".to_string(), "q{% ifchanged %}{{ k }}{% endifchanged %}{% if k == 2 %}{% break %}{% endif %}".to_string())];
-    let data = obj(vec![("arr", RV::Arr(vec![RV::Int(1), RV::Int(2), RV::Int(3)])), ("name", st("Tobi"))]);
+    let partials = vec![
+        ("p".to_string(), "(p{{ k }}{% cycle 'x', 'y' %}{% increment n %})".to_string()),
+        ("q".to_string(), "q{% ifchanged %}{{ k }}{% endifchanged %}{% if k == 2 %}{% break %}{% endif %}".to_string()),
+        // a name and the same name with the suffix the render tag falls back to
+        ("x".to_string(), "[plain {{ k }}{{ k }}]".to_string()),
+        ("x.liquid".to_string(), "[ext {{ k }}]".to_string()),
+        ("only.liquid".to_string(), "[only {{ k }}]".to_string()),
+    ];
+    // long non-ASCII values: error paths put them into messages / context
+    let long = format!("x{}", "é".repeat(40));
+    let data = obj(vec![("arr", RV::Arr(vec![RV::Int(1), RV::Int(2), RV::Int(3)])), ("name", st("Tobi")), ("long", st(&long)), ("longarr", RV::Arr(vec![st(&long), st(&format!("ab{long}"))]))]);
     let t = [
         "plain text only",
         "a{{ name }}b{{ 1 }}c",
@@ -264,6 +273,12 @@ fn fixed() -> Vec<Case> {
         "{% capture c %}hidden{% endcapture %}{{ c }}{{ c | upcase }}{% if name %}yes{% else %}no{% endif %}{% unless name %}u{% endunless %}",
         "{% for i in arr %}{% for j in arr %}{{ i }}{{ j }}{% if j == 2 %}{% continue %}{% endif %}-{% endfor %}{% endfor %}",
         "{{ name }}{{ undefined_name }}after",
+        "<{% render 'x', k: 1 %}|{% render 'x.liquid', k: 2 %}|{% render 'only', k: 3 %}|{% include 'x' k: 4 %}>",
+        "{% case long %}{% when long %}hit{{ long }}{% else %}miss{% endcase %}{% case name %}{% when 'nope' %}n{% else %}else{{ long }}{% endcase %}",
+        "{% if long == long %}same{{ long | upcase }}{% endif %}{% unless long contains 'zz' %}u{{ long | size }}{% endunless %}",
+        "{% for i in longarr %}[{{ i }}{% cycle long, 'b' %}]{% endfor %}{% tablerow i in longarr cols:1 %}{{ i }}{% endtablerow %}",
+        "{% capture c %}{{ long }}{% endcapture %}{{ c | append: long }}{% assign d = long | prepend: 'é' %}{{ d }}{% ifchanged %}{{ long }}{% endifchanged %}",
+        "{% for i in longarr %}{% include 'p' k: i %}{% render 'q', k: i %}{% render 'x' with i as k %}{% endfor %}{% render 'x' for longarr as k %}",
     ];
     t.iter().map(|s| Case { template: s.to_string(), partials: partials.clone(), data: data.clone() }).collect()
 }
